@@ -528,7 +528,37 @@ func families(run *vk.Run) []*family {
 		shapesFamily(run),
 		ireqFamily(run),
 		nreqFamily(run),
+		areqFamily(run),
 	}
+}
+
+// areqFamily: S-areq - @requires field sets whose fields carry arguments, the
+// client selecting the same fields with the same / another / no argument value.
+func areqFamily(run *vk.Run) *family {
+	s := fedlab.SAReq()
+	f := &family{name: "S-areq", s: s, u: fedlab.SAReqUniverse(s), schema: mustSchema(s.SDL())}
+	d := s.Distributable()
+	mk := func(n int, name string, where map[string]int) *fedlab.Layout {
+		return fedlab.ByType(s, n, func(r fedlab.FieldRef) int { return where[r.String()] }, name)
+	}
+	f.layouts = []*fedlab.Layout{
+		fedlab.NewLayout(s, 1, make([]int, len(d)), "mono"),
+		mk(2, "near0", map[string]int{"Parcel.shipping": 1, "Parcel.label": 1, "Parcel.box": 1}), // decorated in both tiers
+		mk(2, "weight-remote", map[string]int{"Parcel.weight": 1}),
+		mk(3, "chain", map[string]int{"Parcel.dims": 1, "Parcel.shipping": 2, "Parcel.label": 2, "Parcel.box": 2}),
+		mk(3, "split", map[string]int{"Parcel.weight": 1, "Parcel.shipping": 2, "Parcel.label": 1, "Parcel.box": 2}),
+	}
+	f.base = f.layouts[1].OwnerVector()
+	f.ops = fedlab.GenOps(fedlab.GenConfig{Schema: f.schema, Widths: vk.Pick(run, []int{1, 3, 1}, []int{1, 3, 2}), ArgMenu: func(t, fl string) [][]fedlab.ArgUse {
+		switch t + "." + fl {
+		case "Dims.size":
+			return [][]fedlab.ArgUse{nil, {{Name: "unit", Value: "INCH"}}, {{Name: "unit", Value: "CM"}}}
+		case "Parcel.weight":
+			return [][]fedlab.ArgUse{nil, {{Name: "unit", Value: "G"}}}
+		}
+		return nil
+	}}, "query")
+	return f
 }
 
 // nreqFamily: S-nreq - @requires inputs that cross an entity boundary
